@@ -468,7 +468,7 @@ def gen_dtype_base(rng):
     T[1] = onehot(rng.choice([4, 7]))
     Tdt[1] = 'int8'
     return {'Q': Q, 'Qdt': Qdt, 'T': T, 'Tdt': Tdt, 'nb': rng.choice([20, 50, 100]),
-            'rc': rng.random() < 0.5, 'ntb': 100 if rng.random() < 0.3 else None}
+            'rc': rng.random() < 0.5, 'ntb': None}      # one numba signature per query dtype (no uint64 rr_inv variant)
 
 
 def dtype_variants(rng, base, n_extra):
@@ -529,12 +529,12 @@ def variants(rng, base, n_random, threads_all):
 def generate(tier, rng):
     quick = tier != 'thorough'
     start_worker()
-    n_bases, n_zero, n_oh, n_random = (7, 2, 2, 6) if quick else (16, 5, 4, 20)
-    for _ in range(2 if quick else 6):
+    n_bases, n_zero, n_oh, n_random = (5, 2, 2, 5) if quick else (16, 5, 4, 20)
+    for _ in range(1 if quick else 6):
         base = gen_dtype_base(rng)
         for v in dtype_variants(rng, base, 4 if quick else 12):
             yield v
-    for _ in range(2 if quick else 8):
+    for _ in range(1 if quick else 8):
         base = gen_annot_base(rng)
         for v in annot_variants(rng, base, 2 if quick else 8):
             yield v
